@@ -504,11 +504,11 @@ PLANS = {
                 'and bfloat_t. Judged against the specification in exact rationals: first output = RN(exact), outputs sum exactly to the inputs. non-trivial = all',
         'assumptions': ['inputs above half the largest double and products outside [2^-900, 2^1000] are outside the property and not judged'],
         'streams': [{'name': 'eft_double', 'driver': 'eft_all', 'what': 'double EFTs, -O1',
-                     'runs': {'quick': [dict(args=['--mode', 'rnd', '--count', '800'], shards=16)], 'thorough': [dict(args=['--mode', 'rnd', '--count', '40000'], shards=16)]}},
+                     'timeout': 6000, 'runs': {'quick': [dict(args=['--mode', 'rnd', '--count', '800'], shards=16)], 'thorough': [dict(args=['--mode', 'rnd', '--count', '15000'], shards=16)]}},
                     {'name': 'eft_double_o2', 'driver': 'eft_o2', 'what': 'double EFTs, -O2 -ffp-contract=off',
                      'timeout': 6000, 'runs': {'quick': [dict(args=['--mode', 'rnd', '--count', '600'], shards=16)], 'thorough': [dict(args=['--mode', 'rnd', '--count', '12000'], shards=16)]}},
                     {'name': 'eft_cfloat', 'driver': 'eft_all', 'what': 'generic twoSum on cfloat types', 'exhaustive': {'quick': False, 'thorough': False},
-                     'runs': {'quick': [dict(args=['--mode', 'cfloat', '--count', '20000'], shards=4)], 'thorough': [dict(args=['--mode', 'cfloat', '--count', '400000'], shards=4)]}}],
+                     'runs': {'quick': [dict(args=['--mode', 'cfloat', '--count', '20000'], shards=4)], 'thorough': [dict(args=['--mode', 'cfloat', '--count', '150000'], shards=4)]}}],
     },
     'C15': {
         'level': 'proof', 'coq': 'Properties_C15',
